@@ -4,7 +4,8 @@
 (* CertV2Props.  One trace =                                                *)
 (*   [id, cert : name -> element, rot, target,                              *)
 (*    loaded, valid : BOOLEAN, failing : name | "none",                     *)
-(*    reported, signed : [custom, quote : Seq(0..255), fields : name -> Seq]]*)
+(*    reported, signed : [custom, quote : Seq(0..255), fields, dict_fields :  *)
+(*                        name -> Seq]]  (<<256>> = value unreadable)       *)
 (* `cert`/`rot` are the abstract certificate the concrete one was built     *)
 (* from; `signed` comes from the builder's structured input; `reported` is  *)
 (* what the code handed back.  `at` = 1 flags model drift (the failing      *)
